@@ -144,6 +144,33 @@ func VerifC18_Set() {
 	vnd.Cover("C18.set")
 }
 
+// VerifC18_BlockEvent: a block event (any root, any slot, at any position of the
+// local clock, earlier or later than the event's slot) from an arbitrary cache
+// state; the next lookup of that root is answered from the cache with the
+// event's slot. An event without data changes nothing.
+func VerifC18_BlockEvent() {
+	n := vnd.IntRange("n", 0, 2)
+	s, roots, slots, h := c18Cache(n)
+	if vnd.Bool("event.without-data") {
+		s.handleBlock(&apiv1.Event{Topic: "block"})
+		vnd.Assert(len(s.blockRootToSlot) == n, "C18.event.no-data-no-change")
+		return
+	}
+	r := phase0.Root(vnd.Root("event.root"))
+	sl := phase0.Slot(vnd.U64("event.slot"))
+	s.handleBlock(&apiv1.Event{Topic: "block", Data: &apiv1.BlockEvent{Slot: sl, Block: r}})
+	got, err := s.BlockRootToSlot(context.Background(), r)
+	vnd.Assert(err == nil && got == sl, "C18.event.then-lookup-returns-the-events-slot")
+	vnd.Assert(h.calls == 0, "C18.event.no-fetch")
+	for i := range roots {
+		if roots[i] != r {
+			st, ok := s.blockRootToSlot[roots[i]]
+			vnd.Assert(ok && st == slots[i], "C18.event.others-untouched")
+		}
+	}
+	vnd.Cover("C18.event")
+}
+
 // VerifC17_CacheOverlap: block events, lookups (hit and miss) and cleaning
 // overlapping one another have no unsynchronised conflicting accesses.
 func VerifC17_CacheOverlap() {
